@@ -6,7 +6,7 @@ import "verif/sim/kit"
 func init() {
 	kit.Register(&kit.PropertySpec{
 		ID: "C11", Engine: "chainsim",
-		Profiles: []kit.ProfileSpec{{Name: "faultfree", Weight: 5}, {Name: "crash", Weight: 3}, {Name: "faults", Weight: 2}},
+		Profiles: []kit.ProfileSpec{{Name: "faultfree", Weight: 5}, {Name: "crash", Weight: 3}, {Name: "faults", Weight: 2}, {Name: "transitions", Weight: 2}},
 		// ~1 ms per history on one core; batches normally end on the run count, not the clock. Thorough run counts are capped
 		// because the runner keeps every result (with its first 40 events) in memory: ~8 KB per run.
 		QuickRuns: 24000, QuickBudgetS: 45, ThoroughRuns: 500000, ThoroughBudgetS: 600,
@@ -15,6 +15,10 @@ func init() {
 			"let the background flusher perform 1..8 database writes (its every Set is a scheduled event, also inside another operation's database lookup), crash+restart the manager over the surviving database (profiles crash, faults), " +
 			"inject a locator-bucket write error (profile faults). Lists mix fresh transactions with duplicates of the same list / an unfinalised ancestor at any depth / a finalised ancestor (cached, evicted-but-in-DB, being flushed) / a sibling branch; " +
 			"timestamps are drawn on bts-th, bts-th+1, bts+th-1, bts+th, bts+th+1 of the block and of its ancestors; thresholds are constant, growing, shrinking or free along a chain; timestamps never decrease along a chain. " +
+			"Profile transitions asks the same question of REAL service transitions: after a real genesis (chain SCORE installed, an externally owned governance account) a tree of service.NewTransition(alreadyValidated=false) objects on one TXIDManager; " +
+			"every block is validated and executed by transition.Execute on its parent's state, before or after its ancestors are finalised (tape), finalised in block.Manager's order (FinalizeResult of the parent transition, then FinalizeNormalTransaction of the block); " +
+			"the on-chain timestamp threshold is raised/lowered during the run by governance transactions (setTimestampThreshold), so the threshold of the state a block is validated on and the node-wide checker threshold (which follows finalised states) differ; " +
+			"timestamps sit on the window edges of the block under its own, the previous and the checker's threshold and on ancestors' edges; duplicates (also of the governance transaction) are offered in descendants, preferably from the band between the two thresholds. " +
 			"Non-trivial = the run validated at least one list containing a genuine replay attempt (an id already in the chain or earlier in the list whose timestamp is inside the validating block's window) and finalised at least one block; " +
 			"distinct = distinct event-log hash (every operation with its block parameters, every list with ids/timestamps/placement kind/database lookups, every verdict, flusher progress).",
 		QuickProbes: []string{
@@ -22,11 +26,17 @@ func init() {
 			"ts_edge:bts-th", "ts_edge:bts-th+1", "ts_edge:bts+th", "ts_edge:bts+th+1",
 			"th_shrink_step", "th_grow_step", "dup_lookup_through_shrunk_threshold", "dup_lookup_after_grown_threshold",
 			"manager_restart", "flush_error", "dup_at_holder_upper_edge",
+			// profile transitions
+			"threshold_changed_on_chain", "threshold_raised_on_chain", "threshold_lowered_on_chain",
+			"block_validated_before_threshold_state_finalized", "block_validated_after_threshold_state_finalized",
+			"block_validated_on_unfinalised_parent", "block_validated_on_finalised_parent",
+			"tx_recorded_in_band_above_checker_threshold", "dup_in_band_above_checker_threshold",
 		},
 		EssentialProbes: []string{
 			"dup_rejected:finalised-in-db-after-restart", "manager_restart_mid_flush", "commit_refused_after_flush_error",
 			"parent_committed_before_child_logger", "parent_committed_between_child_logger_and_add", "parent_committed_after_child_add",
 			"commit_finalised_ancestors_recursively", "sibling_branch_tx_accepted",
+			"block_validated_before_lowered_threshold_state_finalized", "dup_of_governance_tx",
 		},
 		Assumptions: []string{
 			"a block is accepted by the validation path iff TXIDLogger.Add(list, force=false) succeeds AND every transaction passes the timestamp-range check for (block time, threshold) — the two steps service/transition.go performs; the rest of transition validation (signature, balance) is outside this property and exercised under C37",
@@ -35,20 +45,23 @@ func init() {
 			"when a block is finalised, unfinalised blocks that do not descend from it are discarded (as a block manager does); the oracle is therefore never asked about dead branches",
 			"after an injected write error the oracle tolerates refusals (failed Commit, refused valid list) but never an accepted duplicate; no restart is generated after a write error because the database is then known to be incomplete",
 			"transaction ids are hashes of real signed v3 transfers, so a duplicate id always carries the original timestamp",
+			"profile transitions: the window of a block is (bts-th, bts+th] with th = the timestamp threshold stored in the world state produced by its parent (read back from that state, never from the node-wide checker); fees are zero and balances ample so that only replay protection and the window decide validity; no crash/restart and no write errors in this profile",
 		},
 		Real: []string{
 			"common/txlocator: manager (locator map, per-group list cache, maxTSInDB shortcut, eviction), trackers (Has/Add/New/Commit), the background flush goroutine and its job queue",
 			"service/txidmanager.go: TXIDManager, TXIDLogger (NewLogger/Add/Commit/onCommit)", "service/tschecker.go: NewTimestampRange/CheckTxTimestamp, TxTimestampChecker",
 			"service/transaction: v3 transactions parsed from signed JSON (secp256k1, RFC 6979), transaction lists", "common/db MapDB underneath the decorator",
+			"profile transitions: service/transition.go (newInitTransition, NewTransition, Execute: ensureRecordTXIDs + validateTxs + execution, FinalizeTransition, onWorldFinalize -> TxTimestampChecker.SetThreshold), genesis transaction execution, basic platform chain SCORE (setTimestampThreshold via a signed governance call), transfer handler, world state over the trie",
 		},
 		Stubbed: []string{
 			"database: simdb journaling decorator around db.NewMapDB (gates every locator-bucket Set of the flusher, can park a lookup's Get, injects Set errors, fences a crashed incarnation)",
 			"goroutine scheduling of the flusher: it only advances when the driver grants a step (testing/synctest bubble for quiescence detection)",
 			"block manager / consensus: the harness decides which blocks exist, when they are validated and when they are finalised",
+			"profile transitions: module.Chain stub (Database/NID/CID/ConcurrencyLevel/Regulator/TransactionTimeout), no eeproxy, no network",
 		},
 		DesignRef: "4.4",
 		LevelText: "seeded exploration of block-tree histories with duplicate placements, boundary timestamps, threshold changes, commit timings, flusher interleavings, manager restarts and write errors against a per-chain id-set reference; a clean batch is evidence over the sampled histories, not a proof",
-		LevelNote: "exercises the id-recording and timestamp-window steps of block validation directly on TXIDLogger/TimestampRange rather than through a full service transition; crash points are between operations only; database faults are limited to write errors of the locator bucket",
+		LevelNote: "profiles faultfree/crash/faults exercise the id-recording and timestamp-window steps of block validation directly on TXIDLogger/TimestampRange, profile transitions through full service transitions (without restarts or faults); crash points are between operations only; database faults are limited to write errors of the locator bucket",
 		Technique: "deterministic simulation: tape-driven history generator, cooperative scheduling of the real flusher goroutine through a database decorator inside a synctest bubble, crash/restart and write-error injection, reference-model oracle, tape minimisation and replay",
 	})
 
